@@ -7,6 +7,8 @@ mask must follow the rule (element-wise OR / where / travels-with-element / redu
 non-null values must equal the plain-data result (NumPy oracle).  Lean: Props/C04.lean."""
 from __future__ import annotations
 
+import zlib
+
 import random
 import warnings
 
@@ -20,7 +22,7 @@ BINARY = ["add", "subtract", "multiply", "divide", "equal", "less", "greater_equ
           "logical_xor", "bitwise_and", "remainder", "pow", "atan2"]
 REDUCE = ["sum", "prod", "min", "max", "all", "any"]
 OTHER = ["where", "where_scalar_cond", "fill_null", "astype", "isin", "getitem", "reshape", "roll", "flip", "take", "concat",
-         "expand_dims", "broadcast_to", "clip", "clip_bounds", "copy"]
+         "expand_dims", "broadcast_to", "clip", "clip_bounds", "copy", "setitem_own_mask", "setitem_mask_to_null"]
 LEAK_SUSPECTS = ["sort", "argsort", "cumulative_sum", "matmul", "mean", "std", "var", "argmax", "unique_values"]
 
 
@@ -242,6 +244,32 @@ def worker(job):
             lo, hi = (-1, 2) if dtype not in ("uint8", "uint16", "uint32", "uint64") else (1, 3)
             call = lambda a: ndx.clip(a, min=lo, max=hi)
             oracle = (np.ma.getmaskarray(x[0]), np.clip(np.ma.getdata(x[0]), lo, hi))
+        elif op == "setitem_own_mask":
+            # x[x.null] = v: the array's own null field as the index; every formerly null slot holds v afterwards
+            if dtype == "utf8" or not shape:
+                rec["skip"] = "not applicable"; return rec
+            x = make_input(rng, prng, dtype, shape)
+            v = True if dtype == "bool" else 2
+            inputs, dts = [x], [ndt]
+            def call(a):
+                t = a.copy()
+                t[t.null] = v
+                return t
+            m0 = np.ma.getmaskarray(x[0])
+            oracle = (np.zeros(shape, bool), np.where(m0, np.asarray(v).astype(np.ma.getdata(x[0]).dtype), np.ma.getdata(x[0])))
+        elif op == "setitem_mask_to_null":
+            # x[m] = <null scalar of x's dtype>: the selected slots become null, the others keep flag and value
+            if dtype == "utf8" or not shape:
+                rec["skip"] = "not applicable"; return rec
+            x = make_input(rng, prng, dtype, shape)
+            sel = rng.integers(0, 2, size=shape).astype(bool)
+            nullv = np.ma.masked_array(np.asarray(1).astype(np.ma.getdata(x[0]).dtype), mask=True)
+            inputs, dts = [x, [sel, sel]], [ndt, "bool"]
+            def call(a, m):
+                t = a.copy()
+                t[m] = ndx.asarray(nullv)
+                return t
+            oracle = (np.ma.getmaskarray(x[0]) | sel, np.ma.getdata(x[0]))
         elif op == "clip_bounds":
             # bounds that are arrays themselves: 0-d or broadcastable, nullable or not; a null bound nulls the element
             x = make_input(rng, prng, dtype, shape)
@@ -439,8 +467,8 @@ def run(ctx: common.Ctx):
     jobs = []
     for op in UNARY + BINARY + REDUCE + OTHER + LEAK_SUSPECTS:
         ds = [d for d in dts if domain_ok(op, d)]
-        for k in range(6 if quick else 80):
-            jobs.append((op, ds[k % len(ds)], ctx.seed * 389 + k))
+        for k in range(10 if quick else 100):
+            jobs.append((op, ds[k % len(ds)], zlib.crc32(f"{op}/{ctx.seed}/{k}".encode())))
     res = tables.pmap(worker, jobs, chunk=6)
     for job, r in tables.pairs(ctx, jobs, res):
         if isinstance(r, tables.Crashed):
